@@ -7,7 +7,11 @@
   found them in the source — it fails when that order changes).
 
   What is not modelled: I/O errors of `conn.Write` / `io.ReadFull` other than
-  "the other side closed before sending 4 bytes" (`clientHandshakeReply`).
+  "the other side closed before sending 4 bytes" (`clientHandshakeReply` on the client side,
+  `acceptRawSocket` on the server side).  `acceptRawSocket` / `connectRawSocketPeer` are the
+  exported wrappers `AcceptRawSocket` / `ConnectRawSocketPeer` as far as they matter here: they
+  close the connection exactly when the handshake returned an error (HAND-WRITTEN from
+  rawsocketpeer.go:120-125 and :133-140; tied by the `shake` / `chs` sections of the family).
 
   Core-only.
 -/
@@ -88,5 +92,35 @@ def connect (protocol : UInt8) (cliLimit srvLimit : Int) : HsResult × SrvOut :=
     let s := serverHandshake b0 b1 b2 b3 srvLimit
     (clientHandshakeReply protocol cliLimit (s.reply.getD []), s)
   | _ => (.error "unreachable: the request has four bytes", ⟨none, .error "unreachable"⟩)
+
+def HsResult.isOk : HsResult → Bool
+  | .ok _ => true
+  | .error _ => false
+
+/-- What `AcceptRawSocket` did: the bytes written, the result, and whether it closed the
+    connection (`if err != nil { _ = conn.Close(); return nil, err }`). -/
+structure AcceptOut where
+  reply : Option (List UInt8)
+  result : HsResult
+  connClosed : Bool
+  deriving Repr, DecidableEq
+
+/-- `AcceptRawSocket` on everything the client wrote before it stopped writing: with fewer than
+    four bytes and then the end of the stream, `io.ReadFull(conn, buf[:])` fails (`io.EOF` when
+    nothing came, `io.ErrUnexpectedEOF` after 1..3 bytes) and `serverHandshake` returns that
+    error before looking at a byte or writing one.  Bytes after the fourth are not read by the
+    handshake (they are the first frames). -/
+def acceptRawSocket (recvLimit : Int) : List UInt8 → AcceptOut
+  | b0 :: b1 :: b2 :: b3 :: _ =>
+    let o := serverHandshake b0 b1 b2 b3 recvLimit
+    ⟨o.reply, o.result, !o.result.isOk⟩
+  | [] => ⟨none, .error "EOF", true⟩
+  | _ => ⟨none, .error "unexpected EOF", true⟩
+
+/-- `ConnectRawSocketPeer` once the connection is dialled, on everything the server wrote before it
+    stopped writing: the result, and whether the client closed the connection. -/
+def connectRawSocketPeer (protocol : UInt8) (recvLimit : Int) (reply : List UInt8) : HsResult × Bool :=
+  let r := clientHandshakeReply protocol recvLimit reply
+  (r, !r.isOk)
 
 end Nexus.Frame
